@@ -477,8 +477,20 @@ func (a *agentStub) send(p *agentProc) {
 }
 
 func (a *agentStub) fold(p *agentProc) {
-	a.c.res.stat("fold_files", 1)
 	simrt.Sleep(time.Millisecond)
+	a.mu.Lock()
+	fail := a.failNext["fold"] > 0
+	if fail {
+		a.failNext["fold"]--
+	}
+	a.mu.Unlock()
+	if fail {
+		// sfold exits non-zero before touching the files (e.g. it could not open one)
+		a.c.res.stat("fold_file_failed", 1)
+		a.finish(p, 1)
+		return
+	}
+	a.c.res.stat("fold_files", 1)
 	err := sparse.FoldFile(filepath.Join(a.rn.dir, p.Src), filepath.Join(a.rn.dir, p.Dest), &foldStub{})
 	if err != nil {
 		a.finish(p, 1)
